@@ -17,6 +17,7 @@ def parseScalar (t : String) : Option GoVal :=
     | [k, body] =>
       if k == "b" then (unhex body).map .bytes
       else if k == "bs" then (unhex body).map .bstr
+      else if k == "bx" then (unhex body).map .bstr     -- any other named byte-slice type: same paths as key.ByteStr
       else if k == "t" then (unhex body).map .str
       else if k == "f" then some (.float body)
       else match parseKind k, body.toInt? with
